@@ -401,8 +401,15 @@ def long_case(draw):
     cls = draw(st.sampled_from(CLASSES))
     d0 = draw(st.sampled_from(["r12", "c12", "r15", "c15", "r12c"]))
     n = len(OPS_EXT[cls])
-    idx = draw(st.lists(st.integers(0, n - 1), min_size=3, max_size=30))
-    return {"cls": cls, "d0": d0, "hist": [OPS_EXT[cls][i] for i in idx]}
+    # mostly the extended alphabet (indices shrink towards its first entries); one operation in eight assigns an NFFT or a
+    # sampling frequency outside the small pools (any grid size 16..400, rates 1e-2..44100), after which df, the axis length
+    # and the estimate are compared with a fresh object as after any other operation
+    op = st.one_of(st.integers(0, n - 1), st.integers(0, n - 1), st.integers(0, n - 1), st.integers(0, n - 1),
+                   st.integers(0, n - 1), st.integers(0, n - 1), st.integers(0, n - 1),
+                   st.one_of(st.tuples(st.just("NFFT"), st.integers(16, 400)),
+                             st.tuples(st.just("sampling"), st.sampled_from([1000.0, 100.0, 8.0, 0.01, 44100.0, 2.0, 3.0]))))
+    hist = [OPS_EXT[cls][i] if isinstance(i, int) else ["set", i[0], i[1]] for i in draw(st.lists(op, min_size=3, max_size=30))]
+    return {"cls": cls, "d0": d0, "hist": hist}
 
 
 @sub("C07.long", strategy=long_case(), quick=4000, thorough=40000, shards_quick=4,
